@@ -361,11 +361,17 @@ var vEidStrings = []string{"dtn://node/", "dtn://n1/a/b", "dtn:none", "ipn:1.2",
 	"dtn://", "ipn:0.1", "ipn:1.0", "foo:bar", "", "dtn:none/", "ipn:1", "dtn://n ode/", "dtn:///x", "ipn:18446744073709551616.1", "ipn:01.1"}
 
 func vDescEsc(s string) string {
-	s = strings.NewReplacer(" ", "_", "\n", "\\n", "=", ":").Replace(s)
-	if len(s) > 40 {
-		s = s[:40] + "…"
+	// printable ASCII only (endpoint texts may hold arbitrary bytes), no blanks, no '='
+	b := []byte(s)
+	if len(b) > 40 {
+		b = append(b[:40:40], '~')
 	}
-	return s
+	for i, c := range b {
+		if c <= 0x20 || c > 0x7e || c == '=' {
+			b[i] = '_'
+		}
+	}
+	return string(b)
 }
 
 // vBuilderSeq: a random call sequence on the fluent builder.
@@ -590,6 +596,291 @@ func vReassemble(bs []Bundle) (b Bundle, err error, panicked bool) {
 	return
 }
 
+
+// ---------------------------------------------------------------- fragmentation corners
+
+// vCorner: one combination of the properties the validity rules of a fragment depend on.
+// age / hop / prev: 0 = no such block, 1 = block with the replicate flag, 2 = block without it.
+type vCorner struct {
+	zeroTime       bool
+	age, hop, prev int
+	anon, admin    bool
+}
+
+func (c vCorner) String() string {
+	b := func(v bool) int {
+		if v {
+			return 1
+		}
+		return 0
+	}
+	return fmt.Sprintf("zt%d-age%d-hop%d-prev%d-anon%d-admin%d", b(c.zeroTime), c.age, c.hop, c.prev, b(c.anon), b(c.admin))
+}
+
+func vCorners() (out []vCorner) {
+	for _, zt := range []bool{false, true} {
+		for age := 0; age < 3; age++ {
+			if zt && age == 0 {
+				continue // not a valid bundle to start from
+			}
+			for hop := 0; hop < 3; hop++ {
+				for prev := 0; prev < 3; prev++ {
+					for _, anon := range []bool{false, true} {
+						for _, admin := range []bool{false, true} {
+							out = append(out, vCorner{zt, age, hop, prev, anon, admin})
+						}
+					}
+				}
+			}
+		}
+	}
+	return
+}
+
+// vCornerBundle: a valid bundle of the given corner with a payload large enough for several fragments.
+func vCornerBundle(r *vRng, c vCorner, now uint64) Bundle {
+	var flags BundleControlFlags
+	src := vGenEid(r, false)
+	if c.anon {
+		src = DtnNone()
+		flags |= MustNotFragmented // required for an anonymous source; Fragment must refuse such a bundle
+	}
+	if c.admin {
+		flags |= AdministrativeRecordPayload
+	}
+	if !c.anon && !c.admin {
+		for _, f := range []BundleControlFlags{StatusRequestReception, StatusRequestForward, StatusRequestDelivery, StatusRequestDeletion} {
+			if r.chance(30) {
+				flags |= f
+			}
+		}
+	}
+	if r.chance(30) {
+		flags |= RequestUserApplicationAck
+	}
+	p := PrimaryBlock{Version: 7, BundleControlFlags: flags, CRCType: CRCType(r.intn(3)),
+		Destination: vGenEid(r, false), SourceNode: src, ReportTo: vGenEid(r, true), Lifetime: 86400000 + uint64(r.intn(1000000))}
+	var age uint64
+	if c.zeroTime {
+		p.CreationTimestamp = NewCreationTimestamp(0, uint64(r.intn(100)))
+		age = uint64(r.intn(1000000))
+	} else {
+		p.CreationTimestamp = NewCreationTimestamp(DtnTime(now-uint64(r.intn(3600000))), uint64(r.intn(100)))
+		age = r.u64()
+	}
+	bf := func(mode int) BlockControlFlags {
+		var f BlockControlFlags
+		if mode == 1 {
+			f |= ReplicateBlock
+		}
+		if r.chance(25) {
+			f |= DeleteBundle
+		}
+		if r.chance(25) {
+			f |= RemoveBlock
+		}
+		if r.chance(25) && !c.anon && !c.admin {
+			f |= StatusReportBlock
+		}
+		return f
+	}
+	num := uint64(2)
+	var cbs []CanonicalBlock
+	add := func(mode int, v ExtensionBlock) {
+		cbs = append(cbs, CanonicalBlock{BlockNumber: num, BlockControlFlags: bf(mode), CRCType: CRCType(r.intn(3)), Value: v})
+		num += 1 + uint64(r.intn(3))
+	}
+	if c.prev > 0 {
+		add(c.prev, NewPreviousNodeBlock(vGenEid(r, false)))
+	}
+	if c.age > 0 {
+		add(c.age, NewBundleAgeBlock(age))
+	}
+	if c.hop > 0 {
+		lim := uint8(1 + r.intn(255))
+		add(c.hop, &HopCountBlock{Limit: lim, Count: uint8(r.intn(int(lim) + 1))})
+	}
+	if r.chance(50) {
+		add(1+r.intn(2), NewGenericExtensionBlock(r.bytesN(r.intn(30)), uint64(20+r.intn(100))))
+	}
+	if r.chance(30) { // not in ascending order
+		for i, j := 0, len(cbs)-1; i < j; i, j = i+1, j-1 {
+			cbs[i], cbs[j] = cbs[j], cbs[i]
+		}
+	}
+	cbs = append(cbs, CanonicalBlock{BlockNumber: 1, BlockControlFlags: bf(r.intn(3)), CRCType: CRCType(r.intn(3)),
+		Value: NewPayloadBlock(r.bytesN(300 + r.intn(700)))})
+	return Bundle{PrimaryBlock: p, CanonicalBlocks: cbs}
+}
+
+// vFragStream: Fragment a bundle so that about `want` fragments result; EVERY returned fragment is reported as a
+// produced bundle, then the fragments are reassembled from a shuffled order, and one fragment is fragmented again.
+func vFragStream(o *vOut, r *vRng, tag string, b *Bundle, now0 uint64, want int) {
+	var enc bytes.Buffer
+	if b.MarshalCbor(&enc) != nil {
+		return
+	}
+	pl := 0
+	if pb, err := b.PayloadBlock(); err == nil {
+		pl = len(pb.Value.(*PayloadBlock).Data())
+	}
+	mtu := enc.Len() - pl + 48 + pl/want + r.intn(8)
+	desc := fmt.Sprintf("%s-len%d-mtu%d", tag, enc.Len(), mtu)
+	if vCheckValid(b) != "1" {
+		vProdErr(o, "fragment", desc+"-source-invalid", "err")
+		return
+	}
+	frags, err, pan := vFragment(b, mtu)
+	switch {
+	case pan:
+		vProdErr(o, "fragment", desc, "panic")
+		return
+	case err != nil:
+		vProdErr(o, "fragment", desc, "err")
+		return
+	}
+	for j := range frags {
+		vProd(o, "fragment", fmt.Sprintf("%s-%d/%d", desc, j, len(frags)), nil, now0, &frags[j])
+	}
+	if len(frags) < 2 {
+		return
+	}
+	shuffled := append([]Bundle{}, frags...)
+	for i := len(shuffled) - 1; i > 0; i-- {
+		j := r.intn(i + 1)
+		shuffled[i], shuffled[j] = shuffled[j], shuffled[i]
+	}
+	re, err, pan := vReassemble(shuffled)
+	switch {
+	case pan:
+		vProdErr(o, "reassembled", desc, "panic")
+	case err != nil:
+		vProdErr(o, "reassembled", desc, "err")
+	default:
+		vProd(o, "reassembled", desc, nil, now0, &re)
+	}
+	// a fragment of a fragment
+	k := r.intn(len(frags))
+	var fenc bytes.Buffer
+	if frags[k].MarshalCbor(&fenc) != nil {
+		return
+	}
+	sub, err, pan := vFragment(&frags[k], fenc.Len()*2/3)
+	switch {
+	case pan:
+		vProdErr(o, "refragment", desc, "panic")
+	case err != nil:
+		vProdErr(o, "refragment", desc, "err")
+	default:
+		for j := range sub {
+			vProd(o, "refragment", fmt.Sprintf("%s-f%d-%d/%d", desc, k, j, len(sub)), nil, now0, &sub[j])
+		}
+	}
+}
+
+// ---------------------------------------------------------------- bundles the node makes itself
+
+func vBuild(f func() (Bundle, error)) (b Bundle, err error, panicked bool) {
+	defer func() {
+		if rec := recover(); rec != nil {
+			panicked = true
+		}
+	}()
+	b, err = f()
+	return
+}
+
+// vNodeMade runs the Builder() call chains of Pipeline.sendReport, PingAgent.ackBundle and sendMetadataBundle.
+func vNodeMade(o *vOut, r *vRng, i int) {
+	now0 := vNowMs()
+	node := vGenEid(r, false)
+	// the bundle that triggers the reaction: any valid bundle, as received from the network
+	ref := vGenBundle(r, vGenOpts{now: now0, payload: r.intn(40)})
+	var kind, desc string
+	var b Bundle
+	var err error
+	var pan bool
+	switch i % 3 {
+	case 0:
+		kind = "statusreport"
+		item := []StatusInformationPos{ReceivedBundle, ForwardedBundle, DeliveredBundle, DeletedBundle}[r.intn(4)]
+		reason := []StatusReportReason{NoInformation, LifetimeExpired, HopLimitExceeded, BlockUnintelligible, NoRouteToDestination}[r.intn(5)]
+		desc = fmt.Sprintf("item%d-reason%d-rpt:%s", int(item), int(reason), vDescEsc(ref.PrimaryBlock.ReportTo.String()))
+		b, err, pan = vBuild(func() (Bundle, error) {
+			return Builder().
+				CRC(CRC32).
+				Source(node).
+				Destination(ref.PrimaryBlock.ReportTo).
+				CreationTimestampNow().
+				Lifetime(ref.PrimaryBlock.Lifetime).
+				StatusReport(ref, item, reason).
+				Build()
+		})
+	case 1:
+		kind = "pong"
+		hopCount := 64
+		if hc, e := ref.ExtensionBlock(ExtBlockTypeHopCountBlock); e == nil {
+			hopCount = int(hc.Value.(*HopCountBlock).Limit)
+		}
+		desc = fmt.Sprintf("hop%d-rpt:%s", hopCount, vDescEsc(ref.PrimaryBlock.ReportTo.String()))
+		b, err, pan = vBuild(func() (Bundle, error) {
+			return Builder().
+				CRC(CRC32).
+				Source(node).
+				Destination(ref.PrimaryBlock.ReportTo).
+				BundleCtrlFlags(MustNotFragmented).
+				CreationTimestampNow().
+				Lifetime(ref.PrimaryBlock.Lifetime).
+				HopCountBlock(hopCount).
+				PayloadBlock([]byte("pong")).
+				Build()
+		})
+	default:
+		kind = "metadata"
+		var meta ExtensionBlock
+		switch r.intn(3) {
+		case 0:
+			pd := DTLSRPeerData{ID: node, Timestamp: DtnTimeNow(), Peers: map[EndpointID]DtnTime{}}
+			for k := r.intn(4); k > 0; k-- {
+				pd.Peers[vGenEid(r, false)] = DtnTime(r.u64())
+			}
+			meta = NewDTLSRBlock(pd)
+		case 1:
+			m := map[EndpointID]float64{}
+			for k := r.intn(4); k > 0; k-- {
+				m[vGenEid(r, false)] = float64(r.intn(1000)) / 1000
+			}
+			meta = NewProphetBlock(m)
+		default:
+			meta = NewBinarySprayBlock(r.u64())
+		}
+		dst := vGenEid(r, false)
+		desc = fmt.Sprintf("type%d", meta.BlockTypeCode())
+		b, err, pan = vBuild(func() (Bundle, error) {
+			bundleBuilder := Builder()
+			bundleBuilder.Source(node)
+			bundleBuilder.Destination(dst)
+			bundleBuilder.CreationTimestampNow()
+			bundleBuilder.Lifetime("1m")
+			bundleBuilder.BundleCtrlFlags(MustNotFragmented)
+			bundleBuilder.PayloadBlock(byte(1))
+			bundleBuilder.Canonical(meta)
+			return bundleBuilder.Build()
+		})
+	}
+	switch {
+	case pan:
+		vProdErr(o, kind, desc, "panic")
+	case err != nil:
+		vProdErr(o, kind, desc, "err")
+	default:
+		// the receiving node has the routing block types registered
+		vSetExtra(vExtraTypes)
+		vProd(o, kind, desc, vExtraTypes, now0, &b)
+		vSetExtra(nil)
+	}
+}
+
 // ---------------------------------------------------------------- TestVerifC02
 
 func vDoReplayC02(o *vOut, line string) bool {
@@ -629,9 +920,9 @@ func TestVerifC02(t *testing.T) {
 	defer vSetExtra(nil)
 	start := time.Now()
 
-	nBase, nBuild, nFrag := 60, 1500, 60
+	nBase, nBuild, nFrag, nNode := 60, 1500, 60, 300
 	if thorough {
-		nBase, nBuild, nFrag = 1200, 40000, 1500
+		nBase, nBuild, nFrag, nNode = 1200, 40000, 1500, 15000
 	}
 
 	for pi, extra := range [][]uint64{nil, vExtraTypes} {
@@ -711,46 +1002,38 @@ func TestVerifC02(t *testing.T) {
 		}
 	}
 
-	// producers: fragmentation and reassembly of valid bundles
+	// producers: fragmentation and reassembly over the rule-relevant corner combinations (every combination in
+	// every run), then of random valid bundles
+	for _, c := range vCorners() {
+		reps := 1
+		if thorough {
+			reps = 6
+		}
+		for k := 0; k < reps; k++ {
+			now0 := vNowMs()
+			b := vCornerBundle(r, c, now0)
+			vFragStream(o, r, c.String(), &b, now0, 3+r.intn(4))
+		}
+	}
 	for i := 0; i < nFrag; i++ {
 		now0 := vNowMs()
 		b := vGenBundle(r, vGenOpts{now: now0, payload: 50 + r.intn(600)})
-		if r.chance(70) {
+		if r.chance(50) {
 			// the usual case: all extension blocks are replicated into every fragment
 			for j := range b.CanonicalBlocks {
 				b.CanonicalBlocks[j].BlockControlFlags |= ReplicateBlock
 			}
 		}
 		b = MustNewBundle(b.PrimaryBlock, b.CanonicalBlocks)
-		var enc bytes.Buffer
-		if b.MarshalCbor(&enc) != nil {
-			continue
-		}
-		mtu := enc.Len()/(1+r.intn(4)) + r.intn(40)
-		desc := fmt.Sprintf("len%d-mtu%d", enc.Len(), mtu)
-		frags, err, pan := vFragment(&b, mtu)
-		switch {
-		case pan:
-			vProdErr(o, "fragment", desc, "panic")
-			continue
-		case err != nil:
-			vProdErr(o, "fragment", desc, "err")
-			continue
-		}
-		for j := range frags {
-			vProd(o, "fragment", fmt.Sprintf("%s-%d/%d", desc, j, len(frags)), nil, now0, &frags[j])
-		}
-		if len(frags) > 1 {
-			re, err, pan := vReassemble(frags)
-			switch {
-			case pan:
-				vProdErr(o, "reassembled", desc, "panic")
-			case err != nil:
-				vProdErr(o, "reassembled", desc, "err")
-			default:
-				vProd(o, "reassembled", desc, nil, now0, &re)
-			}
-		}
+		vFragStream(o, r, "random", &b, now0, 1+r.intn(5))
+	}
+
+	// producers: the bundles the node makes itself. Their constructors live in pkg/routing (Pipeline.sendReport,
+	// sendMetadataBundle) and pkg/agent (PingAgent.ackBundle) and are plain Builder() call chains; the same chains
+	// (pinned by the facts statusReportChain / metadataChain / pongChain of Dtn7.Gen.C02) are run here on generated
+	// inputs.
+	for i := 0; i < nNode; i++ {
+		vNodeMade(o, r, i)
 	}
 	o.line("note", "# c02 seed=%d tier=%s elapsed=%s", seed, os.Getenv("VERIF_TIER"), time.Since(start).Round(time.Millisecond))
 }
